@@ -9,14 +9,104 @@ ROOT = os.path.dirname(os.path.dirname(os.path.realpath(__file__)))
 # id -> (technique, level text, level note, design ref)
 TABLE = {
     "C01": (
-        "hypothesis generated grammars x exhaustive short contexts; oracle = Bar-Hillel product with the prefix DFA in the Boolean model (viability decided exactly)",
-        "Both directions of the mask (nothing missing, nothing extra) on thousands of small grammars incl. empty language, nullable/unary cycles, both back-ends, 16 hash seeds; bounded exploration, not a proof.",
-        "Trusted: vf.cfgref (self-tested against brute-force derivation enumeration). Bounds: <=4 nonterminals, <=8 rules, contexts <=3 (4 thorough).",
+        "generated grammars x exhaustive short contexts x both back-ends; oracle = Bar-Hillel product with the prefix DFA in the Boolean model (viability decided exactly); metamorphic rule order / renaming / hash seed",
+        "Both directions of the mask (nothing missing, nothing extra) on hundreds to thousands of small grammars incl. empty language, nullable/unary cycles, both back-ends, 16 hash seeds. Bounded exploration, not a proof.",
+        "Trusted: vf.cfgref (self-tested against brute-force derivation enumeration and closed forms). Bounds: <=4 nonterminals, <=8 rules, contexts <=3 (4 thorough).",
     ),
     "C02": (
-        "hypothesis generated grammars x exhaustive short strings; differential against a definitional inside-weight reference in exact (Boolean, tropical, free polynomial, rational) and float models; metamorphic rule order / renaming / agenda tie-break salt / hash seed",
-        "Every parser against an independent derivation-sum reference on all strings up to length 3-4; in the free semiring equality of derivation multisets.  Exploration with exact oracles, not a proof.",
-        "Trusted: vf.cfgref.Inside (self-tested vs brute force).  Float regimes use rtol 1e-8.",
+        "generated grammars x exhaustive short strings; differential against a definitional inside-weight reference in exact (Boolean, tropical, free polynomial, rational) and float models; metamorphic rule order / renaming / agenda tie-break salt / hash seed",
+        "Every parser against an independent derivation-sum reference on all strings up to length 3-4; in the free semiring equality of derivation multisets. Exploration with exact oracles, not a proof.",
+        "Trusted: vf.cfgref.Inside (self-tested vs brute force). Float regimes use rtol 1e-8 + atol 1e-10.",
+    ),
+    "C03": (
+        "generated grammars x exhaustive short prefixes; oracle = Bar-Hillel product with the deterministic automaton of p.V* then least fixed point; exact on finite languages (free / rational semirings)",
+        "prefix_weight, the prefix grammar (read as data), the derivative chain and single derivatives against an independent prefix-sum reference; exact multiplicity on finite languages. Exploration.",
+        "Trusted: vf.cfgref.prefix / Inside. FLOAT grammars are convergent by construction.",
+    ),
+    "C04": (
+        "generated convergent grammars x three LM back-ends x contexts; oracle = conditionals from reference prefix/inside/total weights; long contexts (600-1500 tokens) against exact Fraction forward vectors of a generated automaton; tie-break salts, hash seeds",
+        "Normalisation, proportionality to prefix weights, chain rule, back-end agreement, un-normalised weights = parser weights, zero on non-viable contexts, rescaled parser far below 1e-300. Exploration.",
+        "Trusted: vf.cfgref; Fractions for long contexts. rtol 1e-8 (1e-6 long).",
+    ),
+    "C05": (
+        "stateful (Hypothesis RuleBasedStateMachine): histories of p_next / call / chart / clear_cache / grammar transformations / cold long contexts on one object, model = fresh object per query; invariant after every step",
+        "History independence and purity over generated query histories (siblings, prefixes, repeats, clears, cold 500+-token contexts under the default recursion limit) for 8 object kinds. Exploration of histories up to 20-30 steps.",
+        "The model is the library on a fresh object (that is the property); value correctness is C01-C04.",
+    ),
+    "C06": (
+        "generated grammars x every transformation/option x unfold at every site x chains of two; oracle = reference parser on both sides (transformed grammar read as data); exact regimes incl. free polynomial semiring",
+        "Weighted-language preservation of all 17 transformation variants on all strings up to length 3; polynomial identity in the free semiring. Exploration.",
+        "Trusted: vf.cfgref.Inside on both sides.",
+    ),
+    "C07": (
+        "generated grammars (raw, with useless symbols, unproductive start, nullable and unary cycles) x transformations; validity predicates on the output written in the harness (own SCC / reachability / generating sets)",
+        "Structural postconditions of CNF, nullary/unary(-cycle) removal, binarisation, separations and trim on every generated input. Exploration.",
+        "Predicates are harness code; 'useful' = reachable and generating in the result.",
+    ),
+    "C08": (
+        "generated convergent / idempotent / non-recursive grammars; oracle = Kleene iteration of the full polynomial system in the model semiring; finite languages vs the sum of string weights; expectation pairs",
+        "agenda, naive_bottom_up, treesum, expected_length against an independent least-fixed-point computation for every nonterminal, rule rotations and 16 hash seeds (pop orders). Exploration.",
+        "Convergence by construction; rtol 1e-8.",
+    ),
+    "C09": (
+        "generated grammar x transducer / acceptor pairs; oracle = Bar-Hillel matrix equations against the epsilon-free cross-section of the transducer; composed grammar read as data and reference-evaluated",
+        "Relational composition in both argument orders, acceptor product, string intersection total, length truncation, for machines with epsilon on either tape, eps:eps, cycles, dead states. Exploration.",
+        "Trusted: vf.cfgref.compose_total, vf.autoref.cross_section (self-tested vs brute force).",
+    ),
+    "C10": (
+        "generated transducer pairs; oracle = Hadamard product of the two epsilon-free cross-sections (bijection with matching path pairs); composed machine read as data and evaluated by the reference lattice recursion",
+        "Composition (both association branches), evaluation, cross-sections, transpose, projections, from_string / diag / from_pairs against relational semantics. Exploration.",
+        "Trusted: vf.autoref.rel / compose_ref (self-tested vs path enumeration).",
+    ),
+    "C11": (
+        "generated automata x exhaustive short strings; oracle = alpha E* M_x1 E* ... beta as dense matrices over exact model semirings; acyclic cases also brute-force path enumeration",
+        "String weights, epsilon removal (read as data) and total weight against matrix path sums incl. epsilon cycles. Exploration.",
+        "Trusted: vf.autoref (Gaussian elimination over Q / power sums).",
+    ),
+    "C12": (
+        "generated expression trees of rational operations; oracle = denotational evaluator over truncated weighted languages (sum, Cauchy product, star as least solution); constructed automaton read as data and via the library evaluator",
+        "Union, concatenation, star, plus, reversal, zero/one, lift, from_string(s), rename, renumber on operands with epsilon arcs and initial-is-final states, nested to depth 3. Exploration.",
+        "Star only where the series converges (generator scales operands).",
+    ),
+    "C13": (
+        "generated acyclic / deterministic automata over Q; oracle = exact equivalence over Q for all strings at once (Tzeng) + structural predicates + deterministic call budget for termination",
+        "determinize, min_det, push, trim, trim_vals: language equality decided exactly for all strings, determinism, stochasticity after pushing, liveness after trimming. Exploration of inputs; each comparison is exact.",
+        "Termination only claimed where it is a theorem.",
+    ),
+    "C14": (
+        "generated real-weighted automata and pairs equivalent by construction or perturbed; ground truth = exact equivalence and Hankel rank over Q; call budget for termination",
+        "counterexample None <=> equivalent, returned witnesses are real, ==/hash, min terminates, is equivalent and has exactly Hankel-rank many states. Exploration.",
+        "Well-conditioned = dyadic weights, measured singular-value gap (discards counted).",
+    ),
+    "C15": (
+        "generated weighted digraphs; oracle = Gauss-Jordan (I-A)^-1 over Q / power sums; harness-computed SCCs and edge order",
+        "closure_scc_based, closure_reference, closure, solve_left/right, blocks, buckets on graphs with nested cycles, several components, isolated nodes. Exploration, exact comparisons.",
+        "Row sums <= 3/4 in Q.",
+    ),
+    "C16": (
+        "generated value triples per shipped semiring (exact scores where possible, constants and fresh copies); oracle = the semiring laws",
+        "All laws incl. star on thousands of triples per type; Boolean exhaustively covered. Exploration.",
+        "Float tolerance rel 1e-9 / abs 1e-12.",
+    ),
+    "C17": (
+        "generated automata over 1-4-byte alphabets with colliding state names, merged conversions, multi-character-terminal grammars; oracle = matrix path sums + UTF-8 decoding; results read as data",
+        "to_cfg left/right, to_bytes, to_bytes().to_cfg, CFG.to_bytes, merged byte grammars on encodings, truncations and byte mutations. Exploration.",
+        "Caller-chosen state names are disjoint across merged automata (as lark_interface guarantees).",
+    ),
+    "C18": (
+        "generated regex ASTs x character sets x exhaustive short strings + sampled matches and mutations; oracle = Python re.fullmatch; normalisation on the automaton read as data",
+        "Language equality with re on all strings up to length 2-3 over the character set and per-state normalisation. Exploration.",
+        "Trusted: Python re (cross-checked by an AST matcher); ASCII class escapes as documented by interegular.",
+    ),
+    "C19": (
+        "generated Lark grammars printed from a harness AST x candidate texts / byte strings; oracle = reference matcher implementing the substitution semantics with Python re",
+        "Acceptance equality (accepted and rejected strings) for char_cfg and byte_cfg, both recursions, %ignore, case-insensitive literals, multi-byte terminals; N/V disjointness. Exploration.",
+        "Grammars Lark rejects are discarded; acceptance only.",
+    ),
+    "C20": (
+        "generated convergent grammars; oracle = reference total / inside on the input and on the returned grammars read as data",
+        "Per-head sums, total one, proportional string weights, EOS wrapping on all strings over V+EOS up to length 4. Exploration.",
+        "rtol 1e-8.",
     ),
 }
 
